@@ -59,8 +59,38 @@ struct Sched {
     int gate_timeout_ms = 1500;
     std::atomic<int> gate_timeouts{0};
     std::set<std::string> gpoints;           // points between critical sections where a random delay may be injected
+    // sequence mode: a total order of (thread, point) steps taken from a TLC behaviour; every thread is held at its hook
+    // points until it is its turn. If the expected thread does not arrive in time the sequence is abandoned (free run).
+    std::vector<std::pair<std::string, std::string>> seq;
+    size_t seq_idx = 0;
+    std::atomic<bool> seq_active{false};
+    int seq_timeout_ms = 1500;
+    std::atomic<int> seq_diverged{0};
+    int seq_div_at = -1; std::string seq_div_who;
+    std::set<std::string> seq_points;
+    void seq_load(const json &hist) {
+        std::lock_guard<std::mutex> lk(m);
+        seq.clear(); seq_points.clear(); seq_idx = 0; seq_diverged = 0; seq_div_at = -1; seq_div_who.clear();
+        for (auto &h : hist) { seq.push_back({h["r"].get<std::string>(), h["p"].get<std::string>()}); if (h["p"] != "call") seq_points.insert(h["p"].get<std::string>()); }
+        seq_active = !seq.empty();
+    }
+    // wait until the head of the sequence is (role, point); returns false if the sequence is (or becomes) inactive
+    bool seq_wait(const std::string &role, const std::string &point) {
+        std::unique_lock<std::mutex> lk(m);
+        if (!seq_active) return false;
+        bool ok = cv.wait_for(lk, std::chrono::milliseconds(seq_timeout_ms), [&] {
+            return !seq_active || seq_idx >= seq.size() || (seq[seq_idx].first == role && seq[seq_idx].second == point); });
+        if (!seq_active) return false;
+        if (!ok) { seq_active = false; seq_diverged++; seq_div_at = (int)seq_idx; seq_div_who = role + ":" + point; cv.notify_all(); return false; }
+        if (seq_idx >= seq.size()) { seq_active = false; cv.notify_all(); return false; }
+        return true;
+    }
+    void seq_done(const std::string &role, const std::string &point) {
+        std::lock_guard<std::mutex> lk(m);
+        if (seq_active && seq_idx < seq.size() && seq[seq_idx].first == role && seq[seq_idx].second == point) { ++seq_idx; if (seq_idx >= seq.size()) seq_active = false; cv.notify_all(); }
+    }
     void reset(const json &x) {
-        gates.clear(); passed.clear(); gate_timeouts = 0;
+        gates.clear(); passed.clear(); gate_timeouts = 0; seq.clear(); seq_active = false; seq_idx = 0;
         if (x.contains("gates")) for (auto &g : x["gates"]) {
             Gate G; G.hold_role = g["hold"][0]; G.hold_pt = g["hold"][1]; G.hold_b = g["hold"].size() > 2 ? g["hold"][2].get<long>() : -1;
             G.until_role = g["until"][0]; G.until_pt = g["until"][1]; G.until_n = g["until"].size() > 2 ? g["until"][2].get<int>() : 1;
@@ -73,7 +103,8 @@ struct Sched {
         gate_timeout_ms = x.value("gate_timeout_ms", 1500);
     }
     // call on arrival at a point, before its effect is published
-    void arrive(const char *name, const char *role, long b) {
+    void arrive(const char *name, const char *role, long b, const char *seq_role = nullptr) {
+        if (seq_active && seq_points.count(name)) seq_wait(seq_role ? seq_role : role, name);
         if (!gates.empty()) { std::lock_guard<std::mutex> lk(m); passed[std::string(role) + ":" + name + "@"]++; cv.notify_all(); }   // arrival ("@" keys)
         for (auto &g : gates) {
             if (g.hold_pt != name || g.hold_role != role || (g.hold_b >= 0 && g.hold_b != b)) continue;
@@ -92,7 +123,8 @@ struct Sched {
             } else if (rng->below(4) == 0) std::this_thread::yield();
         }
     }
-    void pass(const char *name, const char *role) {
+    void pass(const char *name, const char *role, const char *seq_role = nullptr) {
+        if (seq_active && seq_points.count(name)) seq_done(seq_role ? seq_role : role, name);
         if (gates.empty()) return;
         std::lock_guard<std::mutex> lk(m);
         passed[std::string(role) + ":" + name]++;
